@@ -72,3 +72,9 @@ def elem_inv(I, heap, dtyp, k, v):
 
 # dict kinds whose element invariant is checked at the exits of functions under contract
 WF_DICTS = [NODES, TDict(TInt, TObj("Child")), BUF]
+
+
+# local variables holding `{}` that the code keys symbolically (A-TYPES for locals)
+LOCALS = {
+    ("aiomysensors.persistence.Persistence.save", "data"): TDict(TInt, TJson),
+}
